@@ -186,7 +186,20 @@ theorem readLine_header (lower : Bool) (p : PState) (line : List Char) (hne : li
   simp only [readLine, hs, h1, h2, he, hind, Bool.or_self, Bool.false_eq_true, if_false, decide_false]
   split
   · simp
+  · simp
   · rfl
+
+theorem sectionName?_none (l : List Char) (h : l.head? ≠ some '[') : sectionName? l = none := by
+  unfold sectionName?
+  split
+  · simp at h
+  · rfl
+
+/-- `[name]` is a section header whatever the (non-empty) name contains -/
+theorem sectionName?_header (n : List Char) (hn : n ≠ []) : sectionName? ('[' :: n ++ [']']) = some n := by
+  have hr : (n ++ [']']).reverse.dropWhile (· ≠ ']') = ']' :: n.reverse := by simp
+  have he : n.reverse.isEmpty = false := by cases n <;> simp_all
+  simp only [sectionName?, List.cons_append, hr, he, Bool.false_eq_true, if_false, List.reverse_reverse]
 
 theorem firstLine_facts (kw : Nat) (key : List Char) (g0 : List (List Char)) (lower : Bool)
     (hkey : KeyOK lower key) (hg0 : ∀ x ∈ g0, WordOK x) :
@@ -226,9 +239,8 @@ theorem readLine_first (lower : Bool) (p : PState) (n : String) (os : List RawOp
   have hkhead : ∀ c, key.head? = some c → isBlank c = false := fun c hc => (hkc c (List.mem_of_head? hc)).1
   rw [readLine_header lower p _ hne (by rw [hhead]; exact hkhead) hlast (by rw [hhead]; exact hk2)
     (by rw [hhead]; exact hk3)]
-  have hnb : ((firstLine kw key g0).head? = some '[' && (firstLine kw key g0).contains ']') = false := by
-    rw [hhead]; simp [hk1]
-  simp only [headerLine, hnb, Bool.false_eq_true, if_false, optionLine, closeOpt_eq p n os hcur]
+  have hnb : sectionName? (firstLine kw key g0) = none := sectionName?_none _ (by rw [hhead]; exact hk1)
+  simp only [headerLine, hnb, optionLine, closeOpt_eq p n os hcur]
   have hpad : ∀ c ∈ padOf kw key, isBlank c = true := fun c hc => by
     rw [(isSpaces_pad kw key).2 c hc]; exact isBlank_space
   have hnoeq : '=' ∉ key ++ padOf kw key := by
@@ -261,8 +273,8 @@ theorem readLine_valueless (lower : Bool) (p : PState) (n : String) (os : List R
   have hkhead : ∀ c, key.head? = some c → isBlank c = false := fun c hc => (hkc c (List.mem_of_head? hc)).1
   have hklast : ∀ c, key.getLast? = some c → isBlank c = false := fun c hc => (hkc c (List.mem_of_getLast? hc)).1
   rw [readLine_header lower p _ hkne hkhead hklast hk2 hk3]
-  have hnb : (key.head? = some '[' && key.contains ']') = false := by simp [hk1]
-  simp only [headerLine, hnb, Bool.false_eq_true, if_false, optionLine, closeOpt_eq p n os hcur]
+  have hnb : sectionName? key = none := sectionName?_none _ hk1
+  simp only [headerLine, hnb, optionLine, closeOpt_eq p n os hcur]
   have hpart : partitionAt '=' key = (key, false, []) := partitionAt_none '=' key (fun h => (hkc '=' h).2 rfl)
   have hk' : (if lower = true then (rstripBlanks key).map lowerChar else rstripBlanks key) = key := by
     rw [rstripBlanks_id key hklast]; cases lower <;> simp_all
